@@ -7,6 +7,8 @@ PID = 'C09'
 def replay(obj):
     if obj.get('kind') == 'pybind-e2e':
         return ps.replay_pybind(obj)
+    if obj.get('kind') == 'pybind-tu-sequence':
+        return ps.replay_tu(obj)
     print('replay:', obj.get('what'))
     print(obj.get('solver_output', '') or obj)
     return 1
@@ -19,6 +21,7 @@ def run(rep, args):
     if pr['demoted'] or pr['regressions']:
         n *= 4
     ps.run_oracle(rep, n, pyprops.CATS[PID])
+    ps.tu_sequence(rep)
     if PID in ('C03', 'C04'):
         pyprops.monitors(rep, 60 if rep.tier == 'quick' else 600)
     pyprops.report_regressions(rep, pr)
@@ -26,7 +29,8 @@ def run(rep, args):
                            '(outside the characterising predicates of the known findings), wrapped by the real PybindWrapper with top '
                            'namespace [""] and, for a quarter, ["", ns]; the emitted text is read back into binding records and compared '
                            'with the bindings declared by the reference semantics (gen/reference.py). distinct = distinct (text, top) pairs '
-                           'that were generated and compared; inputs matching a known-finding predicate are skipped and counted')
+                           'that were generated and compared; inputs matching a known-finding predicate are skipped and counted. Multi-file projects: 4 sequences of '
+                           '2-3 files wrapped by one wrapper object with serialization on; each unit may export only classes it binds')
     rep.explanation = EXPL
     rep.assumptions += ASSUME
 
